@@ -207,6 +207,10 @@ def check(E: Engine, rep: Report, rule: str, class_quals: list[str], functions: 
                             g = True
                         if a.rel == "IsNot" and "const:None" in a.lhs.roots and a.rhs.roots == path.roots:
                             g = True
+                        # `"<attr>" not in self._optional_parameters`: mandatory for this device class, and mandatory
+                        # parameters are rejected when None at construction (same idiom as at guarded call sites)
+                        if a.rel == "NotIn" and f"const:{n.attr!r}" in a.lhs.roots and any(r.endswith("._optional_parameters") for r in a.rhs.roots):
+                            g = True
                     elif lit.truth is not None and lit.positive and lit.truth.roots == path.roots and not any(t.startswith("isinstance") for t in lit.truth.tags if False):
                         g = True
                 if not g:
